@@ -8,6 +8,7 @@ package main
 // (appends "H" to the trace when the wrapped handler returns or panics); routes
 //
 //	GET,POST /r/{x}   behaviour handler, per-route resolver <rres>
+//	GET,POST /alias/{x}  re-dispatches to /r/{x} with Lookup + Route.HandleMiddleware, per-route resolver <rres>
 //	GET,POST /t/      WithRedirectTrailingSlash(true), per-route resolver <rres>   (request /t  -> Location t/)
 //	GET,POST /u       WithRedirectTrailingSlash(true)                               (request /u/ -> Location ../u)
 //
@@ -202,6 +203,22 @@ func lgRouter(withLogger bool, cap *lgCapture, trace *[]string, gres, rres strin
 	}
 	for _, m := range []string{"GET", "POST"} {
 		if _, err := f.Handle(m, "/r/{x}", lgBehaviour, ropts...); err != nil {
+			return nil, err
+		}
+		// an alias: its handler re-dispatches the request to /r/{x} through Lookup + Route.HandleMiddleware (the route's own
+		// middleware only: the router-wide Logger and marker have already run for this request and must not run again)
+		alias := func(c fox.Context) {
+			r2 := c.Request().Clone(c.Request().Context())
+			r2.URL = &url.URL{Path: "/r/" + c.Param("x")}
+			rt, cc, _ := c.Fox().Lookup(c.Writer(), r2)
+			if rt == nil {
+				c.Writer().WriteHeader(599)
+				return
+			}
+			defer cc.Close()
+			rt.HandleMiddleware(cc)
+		}
+		if _, err := f.Handle(m, "/alias/{x}", alias, ropts...); err != nil {
 			return nil, err
 		}
 		if _, err := f.Handle(m, "/t/", lgBehaviour, append([]fox.RouteOption{fox.WithRedirectTrailingSlash(true)}, ropts...)...); err != nil {
@@ -403,6 +420,8 @@ func genLogger(r *Rng, tier string, n int, emit func(string)) {
 				path = "/r/abc"
 				if r.Intn(5) == 0 {
 					path, raw = "/r/a/b", "/r/a%2Fb"
+				} else if r.Intn(4) == 0 {
+					path = "/alias/abc"
 				}
 			case "noroute":
 				method = Pick(r, []string{"GET", "POST", "DELETE"})
